@@ -22,6 +22,13 @@ Proved here (for every composition graph, every history, every injective renamin
   original apply workers are run): same persistent list, and the action hands every worker exactly what batch apply
   hands it (or is refused for a branching apply segment) — as long as the groups keep their trainers' registrations;
 * `C04_binding_derived` — hence binding in all four modes under hypotheses on the *plain* composition only;
+* `C04_generation_pinned` — all loads of one action read the generation selected at its first load, whatever other
+  processes commit in between (`Level.key` stores the resolved key, the registry is append-only);
+  `C04_generation_pinned_full` (no generation need be selected) is refuted: an action on an *empty* release racing
+  with the very first commit (`C04_generation_pinned_counterexample`); without storing the key generations mix
+  (`C04_unpinned_counterexample`, the seeded change C04-m2);
+* `C04_listed_complete` — at every micro-step of a commit (= after a crash anywhere) every listed generation has all
+  the states its tag lists; publishing the tag first breaks this (`C04_tag_first_counterexample`, seeded change C04-m3);
 * `C04_binding_counterexample` — without well-formedness the statement is false: the witness is the composition of
   `m1 >> m2 >> PerfTrackScore` as forml built it *before* the repair fixes/C04-subscription-del.diff (the dangling
   head `Future`s of the pipeline's train/label segments died, `Subscription.__del__` un-registered the first
@@ -30,6 +37,7 @@ Proved here (for every composition graph, every history, every injective renamin
 import ForML.Lemmas.C04Modes
 import ForML.Lemmas.C04Copy
 import ForML.Lemmas.C04PerfWf
+import ForML.Lemmas.C04Commit
 
 namespace ForML.Persist
 
@@ -296,5 +304,72 @@ example : FreshFor (· + 100) chain2 :=
     have := this v hv
     show u + 100 ≠ v
     omega⟩
+
+/-! ### one action reads one generation -/
+
+/-- **Pinned generation.** Once the first load of an action has resolved the generation (explicit key or `latest`),
+every later load of that action reads the same generation — the one `select` names on the registry as it was at the
+first load — no matter how many generations other processes commit between the loads. -/
+theorem C04_generation_pinned (P : List Nat) (sel : Option Nat) (reg : Registry) (g : Generation)
+    (hsel : select reg sel = .ok (some g)) (gid₀ : Nat) (h₀ : P.contains gid₀ = true) (evs : List Ev) :
+    runEvents P ⟨sel⟩ reg (.load gid₀ :: evs)
+      = (gid₀ :: loadsOf evs).map (fun gid => Assets.load ⟨P, select reg sel⟩ gid) := by
+  obtain ⟨k, hk0, hk, hfirst⟩ := first_load_pins P hsel h₀
+  simp only [runEvents, hfirst, List.map_cons, hsel, runEvents_pinned P hk0 evs reg hk]
+
+/-- the same without requiring that a generation is selected at the first load -/
+def C04_generation_pinned_full : Prop :=
+  ∀ (P : List Nat) (sel : Option Nat) (reg : Registry) (gid₀ : Nat) (evs : List Ev), P.contains gid₀ = true →
+    runEvents P ⟨sel⟩ reg (.load gid₀ :: evs)
+      = (gid₀ :: loadsOf evs).map (fun gid => Assets.load ⟨P, select reg sel⟩ gid)
+
+/-- An action on a release without generations pins nothing (`Listing.Empty` → null tag): if the first generation
+is committed between two of its loads, the first actor runs without state and the second with a state of generation 1. -/
+theorem C04_generation_pinned_counterexample : ¬ C04_generation_pinned_full := by
+  intro h
+  have h1 := h [7, 8] none [] 7 [.commit ⟨0, [⟨1, 0, 0, none⟩, ⟨2, 0, 0, none⟩]⟩, .load 8] (by decide)
+  have h2 := congrArg (List.map Except.toOption) h1
+  revert h2
+  decide
+
+/-- Without storing the resolved key (`latest` looked up again by every load) one action mixes generations. -/
+theorem C04_unpinned_counterexample :
+    (runEventsUnpinned [7, 8] none [⟨0, [⟨1, 0, 0, none⟩, ⟨2, 0, 0, none⟩]⟩]
+        [.load 7, .commit ⟨1, [⟨1, 1, 0, some (1, 0)⟩, ⟨2, 1, 0, some (2, 0)⟩]⟩, .load 8]).map Except.toOption
+      = [some (some ⟨1, 0, 0, none⟩), some (some ⟨2, 1, 0, some (2, 0)⟩)] := by decide
+
+/-! ### a listed generation is complete, at every micro-step of a commit -/
+
+/-- **Crash consistency of the binding.** Whatever prefix of the micro-steps of a training run's commit has been
+executed (stage the state files, create the directory, move the files, write and publish the tag), every *listed*
+generation holds every state its tag lists — so no load of a listed generation can answer "no state". -/
+theorem C04_listed_complete (s : Store) (hs : s.ok = true) (k run : Nat) (states : List (Nat × Origin)) (n : Nat) :
+    (runOps s ((trainOps k run states).take n)).ok = true := by
+  by_cases hn : n ≤ (prepareOps k states).length
+  · rw [trainOps, List.take_append_of_le_length hn]
+    exact runOps_ok_safe _ s hs (fun op hop => prepareOps_safe k states op (List.mem_of_mem_take hop))
+  · have hlen : (trainOps k run states).length ≤ n := by
+      simp only [trainOps, List.length_append, List.length_cons, List.length_nil]
+      omega
+    rw [List.take_of_length_le hlen, trainOps, runOps_append]
+    cases hp : runAll s (prepareOps k states) with
+    | none => exact runOps_ok_safe _ s hs (prepareOps_safe k states)
+    | some s' =>
+      have hs' := runAll_ok_safe _ s s' hs (prepareOps_safe k states) hp
+      have hfiles := prepare_hasFiles k states s s' hp
+      simp only [runOps]
+      cases ha : applyOp s' (Op.publishTag k run (states.map (·.1))) with
+      | none => exact hs'
+      | some s'' => exact publish_ok hs' hfiles s'' ha
+
+/-- Publishing the tag before the state files are moved leaves a window in which a listed generation lacks a state. -/
+theorem C04_tag_first_counterexample :
+    (runOps ⟨[], []⟩ ((tagFirstOps 1 0 [(11, ⟨1, 0, 0, none⟩), (12, ⟨2, 0, 0, none⟩)]).take 6)).ok = false := by
+  decide
+
+/-- non-vacuity: a complete commit is listed with both states, a crashed one is not listed at all -/
+example : crashedCommit [] ⟨0, [⟨1, 0, 0, none⟩, ⟨2, 0, 0, none⟩]⟩ 7 = [⟨0, [⟨1, 0, 0, none⟩, ⟨2, 0, 0, none⟩]⟩] := by
+  decide
+example : crashedCommit [] ⟨0, [⟨1, 0, 0, none⟩, ⟨2, 0, 0, none⟩]⟩ 6 = [] := by decide
 
 end ForML.Persist
